@@ -53,6 +53,16 @@ CLAIMED.update({
     },
 })
 
+CLAIMED.update({
+    "C18": {
+        "engine": "simpool",
+        "technique": "deterministic simulation: swarm over each entry point's option cross-product (seeded permutation without repetition) executed under simulated pool schedules, stragglers, stalls and timeouts with progress/outcome monitors; outcome classification completed / refused up front / aborted part-way",
+        "text": "Every analysis entry point (3 KK entry points x 7 tests, Z-HIT, DRT tr-nnls/lm/bht/mrq-fit/tr-rbf, fit_circuit) is called with option tuples drawn without repetition from its full option cross-product, on spectra from 1 point upward with and without masks, under seeded worker counts/schedules/stragglers/stalled workers; each outcome is classified as completed, refused up front, or aborted part-way (violation, keyed by call site), and every progress notification must carry a fraction in [0,1] and a str message. Known aborts on the unchanged tree are listed by call site in KNOWN_FINDINGS.jsonl; anything else is a violation.",
+        "design_ref": "DESIGN.md 4 (C18)",
+        "note": "'refused up front' is operational (library exception at any time; TypeError/ValueError before any pool task and within the first progress step, raised by pyimpspec's own validation); coverage of option tuples is sampled and counted, not exhaustive",
+    },
+})
+
 NOT_APPLICABLE = {
     "C01": "pure synchronous function of (circuit topology, parameter values, frequencies): no schedule, clock, fault or history for a simulator to own",
     "C02": "numeric vs symbolic impedance of an element is a pure function of (class, parameters, f)",
